@@ -29,6 +29,9 @@ CLAIMED = {
  "C16": dict(cat="other", technique="abstract evaluation of compute_stable_timestep; sign analysis of rational functions over positive symbols; weights of the extracted diffusion update",
              text="The returned step is min(advective, diffusive) * prefactor, positive and finite; dt*V/dx - cfl <= 0 and nu*dt/dx^2 - 0.9/(2 dim) <= 0 as sign facts for all positive parameters and V >= 0; V is the grid maximum of sum_c |u_c|; with p <= 0.9/(2 dim) the diffusion update is a convex average with centre weight >= 0.1 and the ring is unchanged.",
              note="nu = 0 is outside (remainder); trusted A2, A3, A7", ref="5 C16"),
+ "C17": dict(cat="other", technique="abstract interpretation of the IO class over a symbolic HDF5 tree with arrays of distinct unknown elements; element maps compared as functions of symbolic indices; rejection cases by construction of deficient files",
+             text="Symbolic round trip for 2D/3D, symbolic marker count and the N == dim corner: layout (per-component Eulerian vectors with leading singleton axis, marker-major grids and Lagrangian vectors, time attribute), save writes no registered array, load assigns every element of every registered field and grid its saved value in place and returns the saved time; files lacking any registered field or grid, or with different origin / spacing / grid size, make load raise.",
+             note="trusted: h5py stores/returns data bit-exactly; np.allclose of different unknown arrays is False; convenience IO classes only register through the base methods (C17.c)", ref="5 C17"),
  "C18": dict(cat="other", technique="region-precise liveness/dependence analysis by symbolic store execution of every step/interaction trace; structured dominance rules and an idiom table on the restart helper",
              text="No hidden state: the transitive roots of every public output after a step/interaction are public state or arrays the step never writes (scratch buffers are fully overwritten before they are read, with Interior(g)+ring coverage decided by the region algebra); only `time` is assigned; restart helper picks the largest index, raises on no checkpoint / time mismatch before use, returns the checkpoint time.",
              note="remainder: PyElastica's own load_state and h5py; IO round trip is C17; trusted A1, A3, A4, A5, A7", ref="5 C18"),
